@@ -23,3 +23,8 @@ claim("C09", "exploration",
       "Trusted: the getrandom shim (self-tested at start-up, exit 2 if not effective), refcodec tokenizer. Iteration orders are sampled, not enumerated.",
       "deterministic simulation: seeded hash keys (interposed getrandom) x seeded builder programs, order decoded from bytes",
       "DESIGN.md 5.5")
+claim("C02", "exploration",
+      "Partial claim, as far as faults reach: a simulated Byzantine printer and a damaging wire (20 fault kinds, random subset per run) plus a fixed list of structural bombs per tier produce the bytes; the real parsers (4 front ends, seeded delivery schedule) and the stand-alone value decoder run on them in isolated worker processes on 2 MiB stacks; whatever comes back is displayed, re-encoded, traversed, cloned and dropped. Invariants: no panic, no process death (a killed worker is attributed to the run it was executing), bounded source reads / polls, 60 s watchdog. The (tag x length) grid and token-sequence enumeration of the quantifier are NOT covered (that is enumeration, not simulation) — stated in the evidence rule.",
+      "Trusted: damage models and refcodec; process isolation by the harness. Sampled faults; stack overflow judged at the 2 MiB default thread stack.",
+      "deterministic simulation: fault injection on the simulated peer/wire (Byzantine encoder + in-flight damage + bombs), isolated child processes, no-panic / no-abort / bounded-step invariants",
+      "DESIGN.md 5.6")
